@@ -1,7 +1,8 @@
 use poulpy_hal::{
     api::{
         ScratchAvailable, ScratchTakeBasic, VecZnxAutomorphismAssign, VecZnxAutomorphismAssignTmpBytes, VecZnxBigAddSmallAssign,
-        VecZnxBigAutomorphismAssign, VecZnxBigAutomorphismAssignTmpBytes, VecZnxBigNormalize, VecZnxBigSubSmallAssign,
+        VecZnxBigAutomorphismAssign, VecZnxBigAutomorphismAssignTmpBytes, VecZnxBigNormalize, VecZnxBigNormalizeTmpBytes,
+        VecZnxBigSubSmallAssign, VecZnxDftBytesOf,
         VecZnxBigSubSmallNegateAssign, VecZnxNormalize,
     },
     layouts::{Backend, Module, Scratch, VecZnxBig},
@@ -26,6 +27,8 @@ pub(crate) trait GLWEAutomorphismDefault<BE: Backend>:
     + VecZnxBigSubSmallNegateAssign<BE>
     + VecZnxBigAddSmallAssign<BE>
     + VecZnxBigNormalize<BE>
+    + VecZnxBigNormalizeTmpBytes
+    + VecZnxDftBytesOf
     + GLWENormalize<BE>
 where
     Scratch<BE>: ScratchTakeCore<BE>,
@@ -40,7 +43,24 @@ where
         assert_eq!(self.n() as u32, a_infos.n());
         assert_eq!(self.n() as u32, key_infos.n());
 
-        let lvl_0: usize = self.glwe_keyswitch_tmp_bytes(res_infos, a_infos, key_infos);
+        let lvl_0_ks: usize = self.glwe_keyswitch_tmp_bytes(res_infos, a_infos, key_infos);
+        // The add / sub variants normalise and apply the big automorphism with the converted operand still alive.
+        let lvl_0_cross: usize = if a_infos.base2k() != key_infos.base2k() {
+            let a_conv_infos: GLWELayout = GLWELayout {
+                n: a_infos.n(),
+                base2k: key_infos.base2k(),
+                k: a_infos.max_k(),
+                rank: a_infos.rank(),
+            };
+            self.bytes_of_vec_znx_dft((res_infos.rank() + 1).into(), key_infos.size())
+                + GLWE::<Vec<u8>>::bytes_of_from_infos(&a_conv_infos)
+                + self
+                    .vec_znx_big_normalize_tmp_bytes()
+                    .max(self.vec_znx_big_automorphism_assign_tmp_bytes())
+        } else {
+            0
+        };
+        let lvl_0: usize = lvl_0_ks.max(lvl_0_cross);
         let lvl_1: usize = self
             .vec_znx_automorphism_assign_tmp_bytes()
             .max(self.vec_znx_big_automorphism_assign_tmp_bytes());
@@ -375,6 +395,8 @@ where
         + VecZnxBigSubSmallNegateAssign<BE>
         + VecZnxBigAddSmallAssign<BE>
         + VecZnxBigNormalize<BE>
+        + VecZnxBigNormalizeTmpBytes
+        + VecZnxDftBytesOf
         + GLWENormalize<BE>,
     Scratch<BE>: ScratchTakeCore<BE>,
 {
